@@ -499,6 +499,89 @@ func spaceRotations(sp func(emit func(Input))) func(emit func(Input)) {
 	}
 }
 
+// spaceTreeOrders: every ORDERED rooted tree with nMin..nMax nodes (level sequences: Catalan(n-1) trees), as an
+// out-tree and as an in-tree, with its edge list in depth-first preorder and in breadth-first order, and every edge list
+// obtained from one of those by moving ONE edge to another position (deviation bound 1 from the two canonical orders).
+// Edge lists in all orders are out of reach beyond 7 edges; order-dependent slips in the ordering phase need an edge
+// that is listed before the edges that lead to it, which one move provides.
+func spaceTreeOrders(nMin, nMax int) func(emit func(Input)) {
+	return func(emit func(Input)) {
+		for n := nMin; n <= nMax; n++ {
+			lvl := make([]int, n)
+			var rec func(i int)
+			rec = func(i int) {
+				if i == n {
+					parent := make([]int, n)
+					for v := 1; v < n; v++ {
+						for u := v - 1; u >= 0; u-- {
+							if lvl[u] == lvl[v]-1 {
+								parent[v] = u
+								break
+							}
+						}
+					}
+					// depth-first preorder of the edges = increasing child number
+					var dfs, bfs [][2]int
+					for v := 1; v < n; v++ {
+						dfs = append(dfs, [2]int{parent[v], v})
+					}
+					bfs = append(bfs, dfs...)
+					sort.SliceStable(bfs, func(a, b int) bool { return lvl[bfs[a][1]] < lvl[bfs[b][1]] })
+					seen := map[string]bool{}
+					out := func(es [][2]int) {
+						for _, inTree := range []bool{false, true} {
+							flat := make([]int, 0, 2*len(es))
+							for _, e := range es {
+								if inTree {
+									flat = append(flat, e[1], e[0])
+								} else {
+									flat = append(flat, e[0], e[1])
+								}
+							}
+							in := relabel(flat)
+							k := fmt.Sprint(in.E)
+							if !seen[k] {
+								seen[k] = true
+								emit(in)
+							}
+						}
+					}
+					for _, base := range [][][2]int{dfs, bfs} {
+						out(base)
+						m := len(base)
+						for i := 0; i < m; i++ {
+							for j := 0; j < m; j++ {
+								if i == j {
+									continue
+								}
+								mv := make([][2]int, 0, m)
+								for k, e := range base {
+									if k == i {
+										continue
+									}
+									mv = append(mv, e)
+								}
+								mv = append(mv[:j], append([][2]int{base[i]}, mv[j:]...)...)
+								out(mv)
+							}
+						}
+					}
+					return
+				}
+				for l := 1; l <= lvl[i-1]+1; l++ {
+					lvl[i] = l
+					rec(i + 1)
+				}
+			}
+			if n == 1 {
+				continue
+			}
+			lvl[0] = 0
+			rec(1)
+		}
+	}
+}
+
 func spaceFilter(sp func(emit func(Input)), keep func(in Input) bool) func(emit func(Input)) {
 	return func(emit func(Input)) {
 		sp(func(in Input) {
